@@ -58,7 +58,7 @@ CFG = {
         dict(test="^TestC10Boundary$", checks=(60, 3000)),
         dict(test="^TestC10Constructors$", checks=(1, 1))]),
     "C11": dict(pkg="core", test="^TestC11$", shards=(8, 16), checks=(2500, 60000)),
-    "C12": dict(pkg="total", test="^TestC12$", shards=(8, 16), checks=(60000, 1500000),
+    "C12": dict(pkg="total", test="^TestC12$", shards=(8, 16), checks=(45000, 1500000),
                 fuzz=dict(pkg="total", target="^FuzzTotal$", seconds=(0, 300))),
     "C13": dict(pkg="core", race=True, test="^TestC13$", shards=(8, 16), checks=(40, 500), shrinktime="5s"),
     "C14": dict(pkg="core", shards=(8, 16), tests=[
